@@ -24,6 +24,10 @@ func defaultOpts(tier string) RunOpts {
 	if s := os.Getenv("VERIF_SEED"); s != "" {
 		o.Seed, _ = strconv.ParseInt(s, 10, 64)
 	}
+	if v := os.Getenv("VERIF_MAXVISITS"); v != "" { // ad-hoc runs of harnesses whose property raises the unwinding bound
+		n, _ := strconv.Atoi(v)
+		o.MaxVisits = int32(n)
+	}
 	if w := os.Getenv("VERIF_WORKERS"); w != "" {
 		o.Workers, _ = strconv.Atoi(w)
 	}
